@@ -43,7 +43,7 @@ def patches(case):
 
 # ----------------------------------------------------------------------------- alphabet
 
-MUTATORS = ["adapt", "baseline", "bounds", "bg_adapt", "bg_adapt_add", "sys_adapt", "sys_adapt_add", "system", "targets", "targets_now", "fit_registered"]
+MUTATORS = ["adapt", "baseline", "bounds", "bounds_lb", "bounds_ub", "bg_adapt", "bg_adapt_add", "sys_adapt", "sys_adapt_add", "system", "targets", "targets_now", "fit_registered"]
 QUERIES = ["q_capture", "q_sysrel", "q_inhull", "q_inhull_norm", "q_fit", "q_l1scale", "q_l1scale_abs"]
 
 
@@ -103,6 +103,19 @@ def apply_step(M, est, ref, step, idx, goals):
             M.assume(lb[j] >= 0); M.assume(ub[j] > lb[j])
         s1, s2 = _copy(lb), _copy(ub)
         est.register_bounds(lb, ub); ref.lb, ref.ub = list(lb), list(ub); untouched("lb", lb, s1); untouched("ub", ub, s2)
+    elif step == "bounds_lb":
+        # only the lower bounds are re-registered: the upper bounds stay as they were
+        lb = fresh("lbo", (nsrc,), sample=lambda r, s: r.uniform(0.0, 0.2, size=s))
+        for j in range(nsrc):
+            M.assume(lb[j] >= 0); M.assume(ref.ub[j] > lb[j])
+        s1 = _copy(lb)
+        est.register_bounds(lb=lb); ref.lb = list(lb); untouched("lb", lb, s1)
+    elif step == "bounds_ub":
+        ub = fresh("ubo", (nsrc,), sample=lambda r, s: r.uniform(1.0, 2.0, size=s))
+        for j in range(nsrc):
+            M.assume(ub[j] > ref.lb[j])
+        s2 = _copy(ub)
+        est.register_bounds(ub=ub); ref.ub = list(ub); untouched("ub", ub, s2)
     elif step in ("bg_adapt", "bg_adapt_add"):
         bg = fresh("bg", (ND,), sample=lambda r, s: r.uniform(0.2, 1.0, size=s)); snap = _copy(bg)
         for v in bg:
@@ -400,7 +413,8 @@ def cases(tier, seed):
         hist = [(a,) for a in alpha] + list(itertools.product(red, repeat=2)) + [("bg_adapt_add", "sys_adapt"), ("sys_adapt", "bg_adapt_add")] + \
                [(q, m_) for q in QUERIES for m_ in ("adapt", "bg_adapt", "sys_adapt_add", "bounds", "system")] + \
                [(m_, q) for q in QUERIES for m_ in ("baseline", "sys_adapt", "targets")] + \
-               [("targets", "q_fit", "adapt"), ("targets", "q_inhull"), ("targets", "targets_now", "q_fit"), ("bounds", "q_l1scale_abs"), ("bounds", "q_l1scale_abs", "q_sysrel")]
+               [("targets", "q_fit", "adapt"), ("targets", "q_inhull"), ("targets", "targets_now", "q_fit"), ("bounds", "q_l1scale_abs"), ("bounds", "q_l1scale_abs", "q_sysrel"),
+                ("bounds", "bounds_lb"), ("bounds", "bounds_ub"), ("bounds_lb", "bounds_ub"), ("bounds_ub", "bounds_lb"), ("bounds_lb", "q_inhull"), ("bounds_ub", "q_fit")]
     if big:
         small = ["adapt", "bg_adapt_add", "sys_adapt", "system", "q_inhull_norm", "q_fit"]
         hist += list(itertools.product(small, repeat=3))
